@@ -6,12 +6,14 @@ package main
 
 import (
 	"bufio"
+	"bytes"
 	"context"
 	"fmt"
 	"math/rand"
 	"sort"
 	"strconv"
 	"strings"
+	"time"
 
 	ipfslog "berty.tech/go-ipfs-log"
 	"berty.tech/go-ipfs-log/accesscontroller"
@@ -616,6 +618,79 @@ drain:
 	w.stats.Iters++
 }
 
+// doIterConsume iterates the whole log over an UNBUFFERED channel while the consumer appends to the same
+// log after each of the first few entries it receives (a reader that acknowledges what it reads).  The
+// iteration must deliver the state at the call and end.  Returns false when it does not end (the replica
+// is then unusable: the history is abandoned).
+func (w *world) doIterConsume(i int) bool {
+	l := w.reps[i].log
+	ch := make(chan iface.IPFSLogEntry)
+	errc := make(chan error, 1)
+	go func() {
+		defer func() {
+			if r := recover(); r != nil {
+				errc <- fmt.Errorf("panic")
+			}
+		}()
+		errc <- l.Iterator(&ipfslog.IteratorOptions{}, ch)
+	}()
+	// the A lines of the appends are held back until the I line is out: the model iterates first
+	saved := w.out
+	var buf bytes.Buffer
+	w.out = bufio.NewWriter(&buf)
+	var got []iface.IPFSLogEntry
+	closed, hang := 0, false
+	acks := 0
+recv:
+	for {
+		select {
+		case e, ok := <-ch:
+			if !ok {
+				closed = 1
+				break recv
+			}
+			got = append(got, e)
+			if acks < 3 {
+				acks++
+				done := make(chan struct{})
+				go func() {
+					w.doAppend(i, 1)
+					close(done)
+				}()
+				select {
+				case <-done:
+				case <-time.After(4 * time.Second):
+					hang = true
+					break recv
+				}
+			}
+		case <-time.After(4 * time.Second):
+			hang = true
+			break recv
+		}
+	}
+	res := "ok"
+	if hang {
+		res = "hang"
+	} else if err := <-errc; err != nil {
+		res = "err:" + errClass(err)
+	}
+	appends := w.out
+	w.out = saved
+	var outs []string
+	for _, e := range got {
+		outs = append(outs, w.al(e))
+	}
+	fmt.Fprintf(w.out, "I %d * * - - - %s %d %s\n", i, res, closed, lst(outs))
+	if !hang {
+		appends.Flush()
+		w.out.Write(buf.Bytes())
+	}
+	w.stats.Iters++
+	w.stats.OpHist["iter:consume"]++
+	return !hang
+}
+
 func errClass(err error) string {
 	s := err.Error()
 	switch {
@@ -730,7 +805,8 @@ func runCore(seed int64, nHist, nOps int, out *bufio.Writer, thorough bool) *cor
 		if maxOps >= 0 && ops > maxOps {
 			ops = maxOps // same PRNG prefix: the history is a prefix of the full one
 		}
-		for k := 0; k < ops; k++ {
+		aborted := false
+		for k := 0; k < ops && !aborted; k++ {
 			n := len(w.reps)
 			i := r.Intn(n)
 			for w.reps[i].tampered {
@@ -759,7 +835,13 @@ func runCore(seed int64, nHist, nOps int, out *bufio.Writer, thorough bool) *cor
 					stats.OpHist["joinN"]++
 				}
 			case c < 86:
-				w.doIter(i)
+				if r.Intn(6) == 0 {
+					if !w.doIterConsume(i) {
+						aborted = true
+					}
+				} else {
+					w.doIter(i)
+				}
 				stats.OpHist["iter"]++
 			case c < 90 && len(w.reps) < 9:
 				kind := []string{"mh", "eh", "json", "ent", "cpE", "cpG", "cpV"}[r.Intn(7)]
@@ -791,8 +873,17 @@ func runCore(seed int64, nHist, nOps int, out *bufio.Writer, thorough bool) *cor
 				w.doAppend(i, 0)
 				stats.OpHist["append"]++
 			}
+			if aborted {
+				break // an iteration did not end: the replica holds its lock for ever
+			}
 			w.observe(i)
 			stats.Ops++
+		}
+		if aborted {
+			fmt.Fprintf(out, "X abort\n")
+			stats.Histories++
+			out.Flush()
+			continue
 		}
 		// every replica is rebuilt once from what it publishes (a random loader, no limit) and the
 		// rebuilt log is compared with it; the rebuilt replica is then forgotten
